@@ -138,10 +138,10 @@ CHECKS["C01"] = {
     "engine": "E1",
     "technique": "bounded exhaustive enumeration of all configuration trees over a name universe, per parameter shape, real layered read on a real tmpfs tree against a reference lookup",
     "level_text": "every tree (3-4 layers x main file {absent, regular, empty, ->/dev/null} x every subset of the drop-in name universe per layer) is "
-                  "materialised on tmpfs and read by the real econf_readConfigWithCallback for 17 parameter shapes (incl. a key-less drop-in in the highest layer, every second file setting one key to the empty value); return code, the sequence of paths "
+                  "materialised on tmpfs and read by the real econf_readConfigWithCallback for 18 parameter shapes (incl. a key-less drop-in in the highest layer, three PARSING_DIRS directories given relative to the current directory with a drop-in of the last layer linked to /dev/null, every second file setting one key to the empty value); return code, the sequence of paths "
                   "given to the callback and the resulting (section,key)->value map are compared with a reference written from the statement; file contents "
                   "encode which files were applied and the relative order of every pair",
-    "level_note": "bounded: name universe of 4 (quick) / 6 (thorough) names for the default shape plus a second universe of 4 / 6 names (dot file, name without suffix, thorough: bare suffix, x.conf.bak), 2-3 / 4 names for the other shapes; C locale only (alphasort = byte order); "
+    "level_note": "bounded: name universe of 4 (quick) / 6 (thorough) names for the default shape plus a second universe of 4 / 6 names (dot file, a name that ends in the letters of the suffix without the dot, thorough: bare suffix, x.conf.bak), 2-3 / 4 names for the other shapes; C locale only (alphasort = byte order); "
                   "trusted: reference in harness/tree.h, tmpfs semantics, ASan/UBSan",
     "rule": "case = (parameter shape, tree); non-trivial = at least two files applied or at least one file masked; distinct by construction; universe contains "
             "names whose byte order differs from numeric (10-a < 9-b) and dictionary (B < a) order, a name without suffix, (thorough) a dot file, the bare suffix and x.conf.bak",
@@ -157,7 +157,7 @@ CHECKS["C01"] = {
 CHECKS["C06"] = {
     "engine": "E1",
     "technique": "bounded exhaustive enumeration of trees x callback entry points x rejection positions with a poison-swap callback on the real code",
-    "level_text": "for each of the four callback entry points, every tree over the name universe and every rejection set (none, the i-th consulted file; "
+    "level_text": "for each of the four callback entry points (also with relative names, with a callback that itself reads a layered configuration, and while owner, group, no-symlink and permission rules that every file satisfies are in force), every tree over the name universe and every rejection set (none, the i-th consulted file; "
                   "thorough: every pair) is executed; files hold poison until the callback accepts them, so any use before or without asking is visible; "
                   "callback sequence, data pointer, return code and out-pointers are compared with the reference processing list",
     "level_note": "bounded: 3 names (quick) / 4 names and pairs of rejections (thorough); main file states {absent, regular, empty}; trusted: reference list in tree.h, the poison-swap callback, ASan/UBSan",
@@ -192,7 +192,7 @@ CHECKS["C16"] = {
     "technique": "deviation-bounded exhaustive enumeration of trees x file attribute assignments x restriction combinations x all eight read entry points on a real tmpfs tree (lchown/symlink)",
     "level_text": "every small tree, every combination of the three restrictions (each with and without a permission requirement that all files satisfy), every assignment of {foreign owner, foreign group, symlink} in which at most D "
                   "files deviate from the required attributes, through all eight read entry points: the first consulted violating file decides the error code, "
-                  "no content is handed back, a refused read is refused in the same way when issued from another thread, compliant trees read as in C01, and after econf_reset_security_settings() everything is accepted again",
+                  "no content is handed back, a refused read is refused in the same way when issued from another thread and when the same files are named relative to the current directory (one entry point reads with two drop-in directories per layer), compliant trees read as in C01, and after econf_reset_security_settings() everything is accepted again",
     "level_note": "bounded: 2 names, D<=1 (quick) / 3 names, D<=2 (thorough); runs as root (lchown); trusted: tree.h reference list, tmpfs ownership semantics, ASan/UBSan",
     "rule": "case = (entry point, tree, restriction set, attribute assignment); non-trivial = a restriction is active and at least one file deviates; "
             "distinct by construction; deviation = one file with non-default attributes",
@@ -208,9 +208,9 @@ CHECKS["C16"] = {
 CHECKS["C11"] = {
     "engine": "E2",
     "technique": "explicit-state breadth-first search over setter histories (state = history replayed on a fresh object, de-duplicated on a canonical form), every state checked against a reference ordered map",
-    "level_text": "all histories of econf_setStringValue over 5 section spellings x 3 keys x 2 values up to depth d from 8 start states (three constructors, "
-                  "three parsed files incl. duplicate key / empty section / re-opened section, two chains crossing the 8 pre-allocated entries) are explored "
-                  "breadth-first with de-duplication on the canonical object form; in every state all gets, defaulted gets and listings are compared with a "
+    "level_text": "all histories of econf_setStringValue over 5 section spellings x 3 keys x 2 values up to depth d from 10 start states (three constructors, "
+                  "five parsed files incl. duplicate key / empty section / re-opened section / keys without value / a single entry, two chains crossing the 8 pre-allocated entries) are explored "
+                  "breadth-first with de-duplication on the canonical object form; in every state all gets, defaulted gets (string and, with sentinels, Int/UInt64/Double/Bool) and listings are compared with a "
                   "reference ordered map, refused calls must have no effect, typed setters are applied one step ahead, and the state must be reproducible; "
                   "a second alphabet (bfs-odd-names) uses the bracket pair alone as group-less spelling, section and key names that are equal under the "
                   "library's own string hash, a bracketed/plain alias pair, a key ending in a blank and (in the getters) an array-style section name",
